@@ -121,7 +121,38 @@ func (c *Ctx) role(name string) *ssa.Function {
 	case "newick.nextToken":
 		return c.calleeBySig(c.role("newick.read"), "(*formats/newick.reader)()(string,error)", 0)
 	case "newick.writer":
-		return c.calleeBySig(c.fn("formats/newick", "(*Node).MarshalText"), "(*formats/newick.Node)(*bytes.Buffer)()", 1)
+		if f := c.calleeBySig(c.fn("formats/newick", "(*Node).MarshalText"), "(*formats/newick.Node)(*bytes.Buffer)()", 1); f != nil {
+			return f
+		}
+		// the writer as a method of a type that holds the buffer, the node being its argument: the one function of the
+		// package that MarshalText reaches (depth 1), that takes a *Node, returns nothing and calls itself
+		mt := c.fn("formats/newick", "(*Node).MarshalText")
+		if mt == nil {
+			return nil
+		}
+		var found []*ssa.Function
+		seen := map[*ssa.Function]bool{mt: true}
+		frontier := []*ssa.Function{mt}
+		for d := 0; d <= 1; d++ {
+			var next []*ssa.Function
+			for _, f := range frontier {
+				for _, g := range c.calleesIn(f) {
+					if seen[g] || g.Pkg != mt.Pkg || g.Blocks == nil {
+						continue
+					}
+					seen[g] = true
+					next = append(next, g)
+					if g.Signature.Results().Len() == 0 && nodeParamIndex(g) >= 0 && len(staticCallsTo(g, g)) > 0 {
+						found = append(found, g)
+					}
+				}
+			}
+			frontier = next
+		}
+		if len(found) == 1 {
+			return found[0]
+		}
+		return nil
 	case "newick.nameToText":
 		return c.calleeBySig(c.role("newick.writer"), "(string)(string)", 0)
 	case "newick.nameFromText":
@@ -431,4 +462,25 @@ func (c *Ctx) iterBody(outer *ssa.Function) *iterBodyInfo {
 	s.subst[m.Params[0]] = rsym
 	s.subst[m.Params[1]] = leaf("param", "P0", m.Params[1])
 	return &iterBodyInfo{f: m, s: s, yield: m.Params[1]}
+}
+
+// nodeParamIndex: the one parameter (receiver included) of f whose type is a pointer to the package's Node; -1 if
+// there is none or more than one.
+func nodeParamIndex(f *ssa.Function) int {
+	idx := -1
+	for i, p := range f.Params {
+		pt, ok := p.Type().(*types.Pointer)
+		if !ok {
+			continue
+		}
+		nt, ok := pt.Elem().(*types.Named)
+		if !ok || nt.Obj().Name() != "Node" || nt.Obj().Pkg() == nil || f.Pkg == nil || nt.Obj().Pkg() != f.Pkg.Pkg {
+			continue
+		}
+		if idx >= 0 {
+			return -1
+		}
+		idx = i
+	}
+	return idx
 }
